@@ -1,6 +1,11 @@
 #include "multi_buffergroup.h"
 #include <string>
 #include <iostream>
+#if defined(WENCRY_VERIF) && defined(WENCRY_VERIF_EVENTS)
+#include "wencry_verif_hooks.h"
+#else
+#define WV_EVENT(kind, id, a, b)
+#endif
 
 /*################################
   初始化
@@ -21,23 +26,28 @@ return:返回装载状态
 */
 loadstate_t iobuffer::load_buffer(FILE *fin, bool ispadding)
 {
+  WV_EVENT(WV_LOAD_BEGIN, 0, this, ispadding);
   u32_t load = fread(b, 1, sum, fin);
   bool readover = feof(fin);
   tail = load & 0xf;
   total = load >> 4;
+  WV_EVENT(WV_LOAD_TOTAL, 0, this, total);
   now = 0;
   if (ispadding && (load != sum))
   {
     u8_t padding = 16 - tail;
     memset(b[total++] + tail, padding, padding);
     isfinal = true;
+    WV_EVENT(WV_LOAD_END, FINAL, this, total);
     return FINAL;
   }
   if ((!ispadding) && readover)
   {
     isfinal = true;
+    WV_EVENT(WV_LOAD_END, FINAL, this, total);
     return FINAL;
   }
+  WV_EVENT(WV_LOAD_END, (load == 0 ? NODATA : FULL), this, total);
   return load == 0 ? NODATA : FULL;
 }
 /*
@@ -47,6 +57,7 @@ ispadding:是否填充
 */
 void iobuffer::export_buffer(FILE *fout, bool ispadding)
 {
+  WV_EVENT(WV_EXPORT_BEGIN, isfinal, this, now);
   if (isfinal)
   {
     u8_t padding = ispadding ? 0 : b[now - 1][15];
@@ -54,6 +65,7 @@ void iobuffer::export_buffer(FILE *fout, bool ispadding)
   }
   else
     fwrite(b, 1, sum, fout);
+  WV_EVENT(WV_EXPORT_END, isfinal, this, now);
 }
 /*################################
   缓冲区控制函数
@@ -63,9 +75,11 @@ wait_ready:等待装载就绪
 */
 void bufferctrl::wait_ready()
 {
+  WV_EVENT(WV_WAIT_READY_BEGIN, 0, this, 0);
   std::unique_lock<std::mutex> locker(lock);
   while (state != READY && state != INV)
     cv_ready.wait(locker);
+  WV_EVENT(WV_WAIT_READY_END, state, this, 0);
   locker.unlock();
 }
 /*
@@ -73,9 +87,11 @@ wait_update:等待可以装载
 */
 void bufferctrl::wait_update()
 {
+  WV_EVENT(WV_WAIT_UPDATE_BEGIN, 0, this, 0);
   std::unique_lock<std::mutex> locker(lock);
   while (state != UPDATING && state != EMPTY)
     cv_update.wait(locker);
+  WV_EVENT(WV_WAIT_UPDATE_END, state, this, 0);
   locker.unlock();
 }
 /*
@@ -92,6 +108,7 @@ void bufferctrl::set_ready(bool load)
     state = INV;
     live_num--;
   }
+  WV_EVENT(WV_SET_READY, state, this, live_num);
   cv_ready.notify_all();
   locker.unlock();
 }
@@ -106,6 +123,7 @@ void bufferctrl::set_update()
     state = UPDATING;
     cv_update.notify_all();
   }
+  WV_EVENT(WV_SET_UPDATE, state, this, 0);
   locker.unlock();
 }
 /*################################
@@ -122,6 +140,9 @@ void buffergroup::set_buffergroup(u32_t size, FILE *fin, FILE *fout, bool ispadd
   this->ispadding = ispadding;
   this->buflst = new iobuffer[size];
   this->ctrl = new bufferctrl[size];
+  WV_EVENT(WV_SETUP_BUF, size, this->buflst, sizeof(iobuffer));
+  WV_EVENT(WV_SETUP_CTRL, size, this->ctrl, sizeof(bufferctrl));
+  WV_EVENT(WV_SETUP_STATE, ispadding, turn, over);
 };
 /*
 get_instance:获取实例
@@ -148,6 +169,7 @@ void buffergroup::del_instance()
     {
       delete instance;
       instance = NULL;
+      WV_EVENT(WV_TEARDOWN, 0, 0, bufferctrl::haslive());
     }
   }
 };
@@ -172,12 +194,16 @@ return:表项地址，若缓冲区已经读取完毕返回NULL
 u8_t *buffergroup::require_buffer_entry(const u8_t id)
 {
   u8_t *result = buflst[id].get_entry();
+  WV_EVENT(WV_GET_FIRST, id, &buflst[id], result);
   if (result == NULL)
   {
     ctrl[id].set_update();
     ctrl[id].wait_ready();
     if (ctrl[id].cmpstate(READY))
+    {
       result = buflst[id].get_entry();
+      WV_EVENT(WV_GET_AFTER_WAIT, id, &buflst[id], result);
+    }
   }
   return result;
 }
@@ -188,6 +214,7 @@ printload:过程打印函数
 void buffergroup::buffer_update(const std::function<void(std::string, size_t)> &printload)
 {
   loadstate_t loadstate = NODATA;
+  WV_EVENT(WV_UPDATE_TURN, turn, &buflst[turn], over);
   if (ctrl[turn].cmpstate(UPDATING))
   {
     buflst[turn].export_buffer(fout, ispadding);
